@@ -38,6 +38,11 @@ def handle (op : String) (j : Json) : Option (R Json) :=
       pure (okJ [("rate", floatToJson rate),
                  ("out", ints ((Array.range n).map (rule07Dark floorF (fun _ i => fpn[i]!) rate f 0))),
                  ("vals", floats ((Array.range n).map fun i => if 0.0 < f then rate * 1.0 * fpn[i]! else rate))])
+  | "st.cosmic" => some do
+      -- deposits in the order they are added: (pixel, amount); the model accumulates them into a zeros frame of n pixels
+      let px ← getInts j "pixel"; let amt ← getFloats j "amount"; let n ← getNat j "n"
+      let deps : List (Nat × Float × Float) := (List.range px.size).map fun k => (px[k]!.toNat, amt[k]!, 1.0)
+      pure (okJ [("out", floats ((Array.range n).map (cosmicFrame deps)))])
   | "st.power" => some do
       let x ← getFloats j "x"; let mask ← getFloats j "mask"; let rms ← getFloat j "rms"
       let n := x.size
